@@ -31,7 +31,7 @@ def main():
     root = projgen.scratch_root()
     try:
         projects = []
-        for n in range(3 if quick else 12):
+        for n in range(6 if quick else 12):
             files = projgen.generated_project(rng, n, modules=3 + rng.below(4), unit=4 + rng.below(6), prop=2 + rng.below(4))
             projects.append((f"gen{n}", projgen.materialise(files, os.path.join(root, f"gen{n}"))))
         acc = projgen.acceptance_projects()
